@@ -325,6 +325,13 @@ def oracle(c, o):
             want = 1 if sd > 0 else (-1 if sd < 0 else 0)
             if decided and o["sign"][i] != want:
                 return "sign[%d]=%d but signed distance is %s" % (i, o["sign"][i], float(sd))
+            # "classify by exactly that value": sign and distance are functions of the number signed_distance itself
+            # returned for this row, whatever rounding went into it (no band: both come from the same call form)
+            own = o["sd"][i]
+            if isinstance(own, (int, float)) and own == own and o["sign"][i] != (1 if own > 0 else (-1 if own < 0 else 0)):
+                return "sign[%d]=%d but signed_distance returned %r for the same row" % (i, o["sign"][i], own)
+            if isinstance(own, float) and own == own and isinstance(o["dist"][i], float) and o["dist"][i] != abs(own):
+                return "distance[%d]=%r is not the absolute value of the returned signed distance %r" % (i, o["dist"][i], own)
             # projection: on the plane, moved along the normal; mirror negates; midpoint is projection
             pr, mi = _F(o["proj"][i]), _F(o["mirror"][i])
             n2 = _dot(nrm, nrm)
